@@ -39,7 +39,11 @@ struct C19 : Harness {
                 else if (c >= 11) {
                     if (w <= 4) p.push_back(mkop("setIV").set("iv", *gcounter(16)).set("len", 16));
                     else if (w == 5 && false) p.push_back(mkop("setCounterSize").set("n", *irange(1, 16)));
-                    else p.push_back(mkop(*chance(50) ? "encrypt" : "decrypt").set("in", *gdata(*gchunk(16))));
+                    else {
+                        // now and then one call of more than 65536 blocks (the AVR code base counts in 8- and 16-bit types)
+                        int n = *irange(0, 499) == 0 ? (1 << 20) + *irange(0, 40) : *gchunk(16);
+                        p.push_back(mkop(*chance(50) ? "encrypt" : "decrypt").set("in", *gdata((size_t)n)));
+                    }
                 } else if (w <= 6 && (cls_tweaked(c) || c == 10)) {
                     Op t = mkop("setTweak");
                     if (*chance(20)) t.setnull("tweak"); else t.set("tweak", *gbytes(bs));
@@ -140,6 +144,7 @@ struct C19 : Harness {
                 if (r != 1) res = where + "C library CTR call failed";
                 else if (a != b) { size_t k = 0; while (k < a.size() && a[k] == b[k]) ++k; res = where + "CTR streams differ at byte " + std::to_string(k) + " of " + std::to_string(a.size()); }
                 if (in.size() % 16) nt = true;
+                if (in.size() >= (1u << 20) && !st.shrinking) st.count("ctr-call>=1MiB");
             }
         }
         delete bc; delete ctr;
